@@ -92,6 +92,13 @@ def rejections():
     try:
         c.set_units({datetime(2024, 1, 5, 13): 4})
         if c.get_available_units(datetime(2024, 1, 5, 8)) != 4: viol.append(('C17 dated calendar does not return its configured value (set_units with a time of day)', ''))
+        # a later definition of a day replaces the earlier one; days not named keep theirs
+        c.set_units({datetime(2024, 1, 5): 0, datetime(2024, 1, 6, 9): 7})
+        c.set_units({datetime(2024, 1, 6): 2})
+        got = [c.get_available_units(datetime(2024, 1, d)) for d in (5, 6, 7)]
+        if got != [0, 2, None]: viol.append(('C17 dated calendar does not return its configured value (a day configured again keeps the old value)', str(got)))
+        c2 = DirectCalendar({datetime(2024, 1, 8): 8}); c2.set_units({datetime(2024, 1, 8): 0})
+        if c2.get_available_units(datetime(2024, 1, 8, 12)) != 0: viol.append(('C17 dated calendar does not return its configured value (a day configured again keeps the old value)', 'constructor value kept'))
     except Exception as e:
         viol.append(('C17 set_units raises ' + type(e).__name__, ''))
     return viol
